@@ -102,6 +102,7 @@ pub fn io_kind(k: std::io::ErrorKind) -> &'static str {
         InvalidInput => "invalidinput",
         WriteZero => "writezero",
         ConnectionAborted => "injected",
+        Interrupted => "interrupted",
         _ => "other",
     }
 }
